@@ -6,23 +6,23 @@ import json, glob, sys
 MUST = {
  "C01": ["wire.channels_sequence_checked", "wire.frames_compared", "fault.short_write_inside_frame", "fault.would_block_write_inside_frame", "c01.server_close_sessions", "c01.heartbeat_stall_sessions"],
  "C02": ["c02.publishes_checked", "c02.boundary_bodies", "c02.multi_frame_bodies", "c02.server_cancels_scripted", "c02.stray_channel_flow_scripted", "c02.cut_short_inside_publish"],
- "C03": ["c03.consumers_checked", "c03.deliveries_compared", "c03.gets_compared", "c03.returns_compared", "probe.big_body_sessions", "probe.multi_frame_content", "c03.flood_sessions", "c03.stalled_writes_checked", "c03.stalled_writes_with_backlog"],
+ "C03": ["c03.consumers_checked", "c03.deliveries_compared", "c03.gets_compared", "c03.returns_compared", "probe.big_body_sessions", "probe.multi_frame_content", "c03.flood_sessions", "c03.stalled_writes_checked", "c03.stalled_writes_with_backlog", "probe.big_body_sessions_with_frames_up_to_128k"],
  "C04": ["c04.calls_paired", "c04.nowait_calls", "c04.runs_with_overlapping_calls", "c04.server_cancels_scripted", "c04.reopen_after_close_checked", "c04.reopen_after_crossing_close_checked"],
  "C05": ["c05.fault_fired", "c05.calls_after_death", "c05.runs_with_call_in_flight_at_death", "c05.closed_by_drop", "c05.kind.eof-at-offset", "c05.kind.reset-at-offset", "c05.kind.write-error-at-call", "c05.kind.corrupt-frame-end", "c05.kind.corrupt-frame-type", "c05.kind.silence", "c05.kind.server-close", "c05.kind.client-exception"],
  "C06": ["c06.cut_inside_frame", "c06.deliveries_timed", "c06.glued_to_open_ok", "c06.close_glued_to_open_ok", "c06.eof_with_last_segment", "c06.ending.eof", "c06.ending.malformed", "c06.ending.connection close", "c06.runs_on_streams_with_a_frame_over_16k"],
  "C07": ["c07.expect.ClientException", "c07.expect.DuplicateConsumerTag", "c07.expect.FrameUnexpected", "c07.expect.ReceivedFrameWithBogusChannelId", "c07.expect.UnknownConsumerTag", "c07.giant_announced_size", "c07.busy_writer_cases"],
- "C08": ["c08.client_close_runs", "c08.server_close_runs", "c08.heartbeat_sessions", "c08.both_sides_close_sessions"],
+ "C08": ["c08.client_close_runs", "c08.server_close_runs", "c08.heartbeat_sessions", "c08.both_sides_close_sessions", "c08.cancel_then_connection_close_during_publish"],
  "C09": ["c09.closed_channels_checked", "c09.call_in_flight_at_close", "c09.consumers_on_closed_channel", "c09.reopen_attempts", "c09.ack_errors_in_drain_sequenced", "c09.cancel_just_before_close_directed"],
- "C10": ["c10.opens", "c10.exhausted", "c10.reused_freed_id", "c10.crossing_closes", "c10.crossing_closes_crossed"],
+ "C10": ["c10.opens", "c10.exhausted", "c10.reused_freed_id", "c10.crossing_closes", "c10.crossing_closes_crossed", "c10.refused_opens_seen"],
  "C11": ["c11.consumers_checked", "c11.server_cancels_checked", "c11.terminal.ClientCancelled", "c11.terminal.ServerCancelled", "c11.terminal.ClientClosedChannel", "c11.terminal.ServerClosedChannel", "c11.terminal.ClientClosedConnection", "c11.terminal.ServerClosedConnection", "c11.cancelok_before_close_checked"],
  "C12": ["c12.methods_compared", "c12.foreign_ack_panicked", "probe.handles_across_channels"],
  "C13": ["c13.confirm_must_have_checked", "c13.return_must_have_checked", "c13.blocked_must_have_checked", "c13.old_listener_checked", "c13.listeners_replaced", "c13.listeners_dropped", "c13.early_close_runs", "c13.early_close_events_sent_after_client_close"],
  "C14": ["c14.confirmations", "c14.histories_out_of_order", "c14.histories_with_early_drop", "c14.histories_with_multiple", "c14.built_with_new", "c14.built_with_default"],
  "C15": ["c15.behaviour_checked", "c15.frame_max_too_small", "c15.ids_runs", "c15.ids_stray_close_ok", "c15.ids_refused_opens"],
  "C16": ["c16.timeouts_timed", "c16.want.connected", "c16.want.ConnectionTimeout", "c16.want.FrameMaxTooSmall", "c16.want.InvalidCredentials", "c16.want.SaslSecureNotSupported", "c16.want.ServerClosedConnection", "c16.want.UnsupportedAuthMechanism", "c16.want.UnsupportedLocale", "c16.want.MalformedFrame", "c16.want.UnexpectedSocketClose"],
- "C17": ["c17.deaths_timed", "c17.client_heartbeat_frames", "c17.pattern.one-frame-trickling-in", "c17.pattern.server-goes-silent"],
+ "C17": ["c17.deaths_timed", "c17.client_heartbeat_frames", "c17.pattern.one-frame-trickling-in", "c17.pattern.server-goes-silent", "c17.late_open_ok_with_stalled_io_thread"],
  "C18": ["c18.throttle_engaged", "c18.io_atomic_runs", "c18.close_only_channel_variant", "c18.close_behind_backlog_runs"],
- "C20": ["c20.batches_with_all_tokens", "c20.expected_tokens", "c20.channel_closeok_checked"],
+ "C20": ["c20.batches_with_all_tokens", "c20.expected_tokens", "c20.channel_closeok_checked", "c20.open_channel_accepted_before_connection_close"],
 }
 bad = 0
 for pid, probes in sorted(MUST.items()):
